@@ -362,6 +362,15 @@ func runVariant(c *run.Ctx, cs Case, s *Spec, a *Agg, v *Variant, dir string, re
 	if want := a.wantExit(); p.code != want {
 		say(&finding{"exit-status", fmt.Sprintf("exit status %d, expected %d (reference: matched %d, parse errors %d); stderr %s", p.code, want, a.matched, a.parseErr, run.Q(tail(string(p.stderr), 300)))})
 	}
+	if s.CrashOnly {
+		if v.Mode == "csv" {
+			o.csv = p.stdout
+		} else if body, ok := cutStatus(p.stdout); ok {
+			o.body = body
+		}
+		c.Count("crash_only_runs", 1)
+		return o, good
+	}
 	if v.Mode == "csv" {
 		o.csv = p.stdout
 	} else {
